@@ -324,17 +324,26 @@ def keyShape (sampleShape : Shape) (condShape : Option Shape) (cond : Option Sha
     | some cs, some c => leadingCondShape c cs.length
     | _, _ => []
 
-/-- `key_size = max(1, prod(key_shape))` -/
-def keySize (ks : Shape) : Nat := max 1 (sprod ks)
+/-- `key_size = prod(key_shape)` (`prod(()) = 1`: a scalar sample gets one key; a zero-sized key
+shape gets zero keys).  Repaired in /repo commit 2d206ec; see `keySizeMax1` for the previous revision. -/
+def keySize (ks : Shape) : Nat := sprod ks
 
-/-- `jnp.reshape(jr.split(key, key_size), (*key_shape, 2))`.  `split key n j` is the `j`-th of the `n`
-keys produced by `jr.split(key, n)` (abstract).  The reshape raises TypeError unless the sizes agree.
-Keys are legacy `uint32[2]` arrays (core shape `(2,)`). -/
-def sampleKeys {Key : Type} (split : Key → Nat → Nat → Key) (key : Key) (ks : Shape) :
+/-- the PREVIOUS revision, kept as a model variant: `key_size = max(1, prod(key_shape))` -/
+def keySizeMax1 (ks : Shape) : Nat := max 1 (sprod ks)
+
+/-- `jnp.reshape(jr.split(key, key_size), (*key_shape, 2))` for a given `key_size` rule.  `split key n j`
+is the `j`-th of the `n` keys produced by `jr.split(key, n)` (abstract).  The reshape raises TypeError
+unless the sizes agree (`key_size * 2 = prod(key_shape) * 2`).  Keys are legacy `uint32[2]` arrays
+(core shape `(2,)`). -/
+def sampleKeysWith {Key : Type} (size : Shape → Nat) (split : Key → Nat → Nat → Key) (key : Key) (ks : Shape) :
     Except PyErr (Arr Key) :=
-  if keySize ks = sprod ks then
-    .ok ⟨ks ++ [2], fun i => split key (keySize ks) (flatIndex ks i)⟩
+  if size ks = sprod ks then
+    .ok ⟨ks ++ [2], fun i => split key (size ks) (flatIndex ks i)⟩
   else .error .typeError
+
+/-- `_get_sample_keys` of the current revision -/
+def sampleKeys {Key : Type} (split : Key → Nat → Nat → Key) (key : Key) (ks : Shape) :
+    Except PyErr (Arr Key) := sampleKeysWith keySize split key ks
 
 /-! ## 6. the three public methods -/
 
@@ -412,7 +421,8 @@ def outShape (m : Method) (shape : Shape) (condShape : Option Shape) (ss x : Sha
   match condArg with
   | .error e => .error e
   | .ok cargs =>
-    -- the first argument: `x`, or the key array of `_get_sample_keys`
+    -- the first argument: `x`, or the key array of `_get_sample_keys` (whose reshape always succeeds,
+    -- `key_size = prod(key_shape)`)
     let first : Except PyErr Shape :=
       if m = .logProb then .ok x
       else
